@@ -13,9 +13,11 @@ import uuid
 
 VERIF = os.path.dirname(os.path.dirname(os.path.abspath(__file__)))
 REPO = os.environ.get("IPP_REPO", "/repo")
-CACHE = os.path.join(VERIF, ".cache")
+# IPP_CACHE lets a long-running self-test tool (seed matrix, determinism sweep) use its own cargo target directories so that it can
+# run next to an interactive ./check; the driver binary is shared
+CACHE = os.environ.get("IPP_CACHE") or os.path.join(VERIF, ".cache")
 DRIVER_SRC = os.path.join(VERIF, "ippfacts")
-DRIVER_TARGET = os.path.join(CACHE, "driver-target")
+DRIVER_TARGET = os.path.join(VERIF, ".cache", "driver-target")
 DRIVER = os.path.join(DRIVER_TARGET, "debug", "ippfacts")
 
 CONFIGS = {
@@ -29,7 +31,7 @@ CONFIGS = {
           "crates": ["ipp"], "why": "rustls blocks without native-tls shadowing"},
 }
 MEMBER_PREFIXES = ("ipp-", "ipp_util-", "ipp-util-", "ipputil-", "ipp-examples-", "ipp_examples-")
-M1_FILTER = "ParserState,list_or_value"
+M1_FILTER = "ipp::parser::"     # elaborated MIR of every (non-async) fn of the parser module: helpers added later are covered too
 
 
 class ExtractError(Exception):
